@@ -2,36 +2,50 @@
 //
 // Targets
 //   ctx_map     stateful histories over a growing family of contexts (SetValue, SetValues with 0..3
-//               pairs in four container types, Context(key,value), Context(container), copies,
-//               destruction of a context that has descendants, long SetValue chains) against a
-//               persistent-map model; EVERY live context is re-queried for EVERY pool key (GetValue,
-//               HasKey, IsRootSpan, GetSpan) after every mutation
+//               pairs in seven container types, Context(key,value), Context(container), copies,
+//               destruction of a context that has descendants, SetValue chains of up to a few
+//               thousand bindings) against a persistent-map model; EVERY live context is re-queried
+//               for EVERY pool key (GetValue, HasKey, IsRootSpan, GetSpan) after every mutation.
+//               Half of the span / span context / baggage values are objects made for one binding
+//               that the harness lets go right after the call: contexts are their only owners, what a
+//               context returns is dereferenced, and the object must exist as long as any existing
+//               context can reach it (also through a shadowed binding)
 //   rt_stack    Attach / Detach (any order, repeated, stale, foreign) / token destruction / Scope
-//               programs against a stack model with identity matching (most recent first, "pop down
-//               to and including", no change for a foreign token); GetCurrent(), value look-ups
-//               through the runtime context and the active span are compared after every step.  A
-//               case runs on a brand-new thread (the thread_local stack starts at capacity 0, so every
-//               deep case crosses the growth path again; depth up to 72) or, sometimes, on the driver
-//               thread after the stack was emptied through the API.  Helper threads provide foreign
-//               tokens and check that a new thread never sees what its creator attached.
+//               programs against a stack model: a token that never matched is matched by its context
+//               (most recent first, "pop down to and including", no change for a foreign token); a
+//               token whose Detach already succeeded has no matching Attach left and changes nothing
+//               when presented again.  GetCurrent(), value look-ups through the runtime context and
+//               the active span are compared after every step.  A case runs on a brand-new thread
+//               (the thread_local stack starts at capacity 0, so every deep case crosses the growth
+//               path again; depth up to 72) or, sometimes, on the driver thread after the stack was
+//               emptied through the API.  Helper threads provide foreign tokens and check that a new
+//               thread never sees what its creator attached.  Scopes are also opened for spans that
+//               nothing but the scope's context owns
 //   rt_threads  2..3 real threads run independent generated programs concurrently (with generated
 //               barriers and yields), each against its own model; every context carries a marker of
 //               its owner, a marker attached by one thread must never be visible on another; the
-//               driver thread holds a marker of its own for the whole run
-// Oracle: reference models written from the property statement; ASan/UBSan (TSan in the thorough
-// tier).  Context identity (operator==) is only asserted where the repository documents it (a copy
-// equals its source, contexts of different content differ, GetCurrent() equals the attached
+//               driver thread holds a marker of its own for the whole run.  Up to three Context
+//               OBJECTS are shared: every thread looks keys up in them, derives from them (SetValue,
+//               SetValues, RuntimeContext::SetValue) and attaches them directly, not through a copy,
+//               while the other threads do the same (a data race there is for the TSan runs to see)
+// Oracle: reference models written from the property statement; ASan/UBSan (TSan for the thread
+// programs).  Context identity (operator==) is only asserted where the repository documents it (a
+// copy equals its source, contexts of different content differ, GetCurrent() equals the attached
 // context); everything else about identity is observed and fed into the stack model, so the model
 // is two-sided there.  Keys are passed as non NUL-terminated views whose storage is scribbled and
 // freed right after the call.
-// Findings of the unchanged tree: F19 (empty container creates a key-less node that answers for /
-// shadows the empty key), C10-nullkey (memcpy/memcmp with a null pointer for the empty key given as
-// string_view{}); the generator avoids each shape only when told so (--exclude).
+// Findings: F19 (empty container creates a key-less node that answers for / shadows the empty key)
+// and C10-nullkey (memcpy/memcmp with a null pointer for the empty key given as string_view{}) are
+// fixed in /repo; C10-detach-twice (a token whose Detach already succeeded pops another frame that
+// holds an equal context when it is presented again) is a candidate, see kHoldBack_detach_twice.
+// The generator avoids each shape only when told so (--exclude) or held back.
+// Only the default ThreadLocalContextStorage is examined (no SetRuntimeContextStorage).
 #include <atomic>
 #include <condition_variable>
 #include <cstring>
 #include <limits>
 #include <map>
+#include <set>
 #include <memory>
 #include <mutex>
 #include <sstream>
@@ -45,6 +59,7 @@
 #include "opentelemetry/context/context.h"
 #include "opentelemetry/context/context_value.h"
 #include "opentelemetry/context/runtime_context.h"
+#include "opentelemetry/nostd/span.h"
 #include "opentelemetry/trace/context.h"
 #include "opentelemetry/trace/default_span.h"
 #include "opentelemetry/trace/noop.h"
@@ -78,6 +93,22 @@ namespace bag   = opentelemetry::baggage;
 // open findings the generator can be told to avoid (see known_findings.json)
 const char *const kF19     = "F19";          // SetValues / Context(container) with an empty container
 const char *const kNullKey = "C10-nullkey";  // empty key handed over as string_view{} (data()==nullptr)
+// A token whose Detach already succeeded is presented again (a second explicit Detach, or simply
+// its destructor - `Detach(*tok)` followed by `tok` going out of scope is the idiom of the
+// repository's own tests) while a frame holding an EQUAL context is still on the stack: the token
+// has no matching Attach left, so nothing may change; the unchanged library matches by context only
+// and pops that other frame (and everything above it).  See proposed_fixes/C10-detach-twice.diff.
+const char *const kDetachTwice = "C10-detach-twice";
+// Decided: an OPEN known finding (known_findings.json; fixed witness target detach_twice_witness).  The
+// repair in proposed_fixes/ adds a data member to the API class Token, whose objects are created by
+// (possibly user-supplied, separately compiled) RuntimeContextStorage implementations: a layout change
+// of an ABI-v1 API type is not a small, safe patch.  While the finding is listed as open the generator
+// never presents such a token as long as an equal context is on the stack (vh::excluded).
+const bool kHoldBack_detach_twice = false;
+bool avoid_detach_twice()
+{
+  return kHoldBack_detach_twice || vh::excluded(kDetachTwice);
+}
 
 // vh::count_excluded is not thread safe; rt_threads draws key arguments on several threads
 void count_excl(const char *id)
@@ -93,6 +124,7 @@ struct MVal
   int alt         = 0;  // index of the ContextValue alternative (0 = monostate = "no value")
   uint64_t bits   = 0;  // bool / int64 / uint64 / double bit pattern
   const void *ptr = nullptr;  // the shared_ptr alternatives compare by pointee identity
+  int owned       = -1;       // model side only: index into Objects::owned (an object no one but contexts holds)
   bool operator==(const MVal &o) const { return alt == o.alt && bits == o.bits && ptr == o.ptr; }
   bool operator!=(const MVal &o) const { return !(*this == o); }
 };
@@ -160,11 +192,68 @@ std::string show_val(const MVal &m)
 }
 
 // objects the shared_ptr alternatives point to; one pool per case (per thread in rt_threads)
+// An object that is handed to a context and then let go by the harness: only contexts (and what
+// holds contexts: the runtime stack, tokens) keep it alive.  `watch` tells whether it still exists;
+// `serial` is what dereferencing it must yield.
+struct Owned
+{
+  int alt = 0;
+  const void *ptr = nullptr;
+  std::weak_ptr<void> watch;
+  uint64_t serial = 0;
+};
+
 struct Objects
 {
   std::vector<nostd::shared_ptr<trace::Span>> spans;
   std::vector<nostd::shared_ptr<trace::SpanContext>> scs;
   std::vector<nostd::shared_ptr<bag::Baggage>> bags;
+  std::vector<Owned> owned;
+
+  static trace::SpanContext owned_span_context(uint64_t serial)
+  {
+    uint8_t t[16] = {0xaa, 0xbb, 0, 0, 0, 0, 0, 0, 0, 0, 0, 0, 0, 0, 0, 0};
+    uint8_t sp[8];
+    for (int i = 0; i < 8; ++i)
+    {
+      t[15 - i] = static_cast<uint8_t>(serial >> (8 * i));
+      sp[7 - i] = static_cast<uint8_t>((serial + 1) >> (8 * i));
+    }
+    return trace::SpanContext(trace::TraceId(t), trace::SpanId(sp), trace::TraceFlags(1), false);
+  }
+  // (no make_shared: the object's memory must be freed with its last owner so that ASan sees a late use)
+  template <class T>
+  int remember(int alt, const std::shared_ptr<T> &p, uint64_t serial)
+  {
+    Owned o;
+    o.alt    = alt;
+    o.ptr    = p.get();
+    o.watch  = std::shared_ptr<void>(p);
+    o.serial = serial;
+    owned.push_back(std::move(o));
+    return static_cast<int>(owned.size() - 1);
+  }
+  nostd::shared_ptr<trace::Span> new_owned_span(uint64_t serial, int *id)
+  {
+    std::shared_ptr<trace::Span> p(new trace::DefaultSpan(owned_span_context(serial)));
+    *id = remember(5, p, serial);
+    return nostd::shared_ptr<trace::Span>(std::move(p));
+  }
+  nostd::shared_ptr<trace::SpanContext> new_owned_span_context(uint64_t serial, int *id)
+  {
+    std::shared_ptr<trace::SpanContext> p(new trace::SpanContext(owned_span_context(serial)));
+    *id = remember(6, p, serial);
+    return nostd::shared_ptr<trace::SpanContext>(std::move(p));
+  }
+  nostd::shared_ptr<bag::Baggage> new_owned_baggage(uint64_t serial, int *id)
+  {
+    std::map<std::string, std::string> kv{{"serial", std::to_string(serial)}};
+    std::shared_ptr<bag::Baggage> p(new bag::Baggage(kv));
+    *id = remember(7, p, serial);
+    return nostd::shared_ptr<bag::Baggage>(std::move(p));
+  }
+  bool alive(int id) const { return !owned[static_cast<size_t>(id)].watch.expired(); }
+
   Objects()
   {
     const uint8_t t1[16] = {1, 2, 3, 4, 5, 6, 7, 8, 9, 10, 11, 12, 13, 14, 15, 16};
@@ -188,6 +277,9 @@ struct Objects
   {
     for (auto &s : spans)
       if (s.get() == p)
+        return true;
+    for (auto &o : owned)
+      if (o.alt == 5 && o.ptr == p && !o.watch.expired())
         return true;
     return false;
   }
@@ -214,6 +306,9 @@ std::string pointee_name(const void *p)
     for (size_t i = 0; i < t_objects->bags.size(); ++i)
       if (t_objects->bags[i].get() == p)
         return "#" + std::to_string(i);
+    for (size_t i = t_objects->owned.size(); i-- > 0;)
+      if (t_objects->owned[i].ptr == p)
+        return "#own" + std::to_string(i) + (t_objects->owned[i].watch.expired() ? "(destroyed)" : "");
   }
   return p ? "#other" : "#null";
 }
@@ -237,9 +332,25 @@ VSpec gen_vspec(vh::Reader &rd)
 
 // `serial` is unique per case, so that a re-bound key almost always carries a DIFFERENT value than
 // the binding it shadows (otherwise a wrong shadowing order would be invisible)
-std::pair<ctx::ContextValue, MVal> make_value(VSpec s, uint64_t serial, const Objects &o)
+// The shared_ptr alternatives: sub < 128 takes an object of the case's pool (the harness keeps a
+// reference for the whole case), sub >= 128 creates a NEW object that only the returned value owns:
+// once the caller has dropped that value, contexts are its only owners.
+std::pair<ctx::ContextValue, MVal> make_value(VSpec s, uint64_t serial, Objects &o)
 {
   ctx::ContextValue v;
+  int owned = -1;
+  if (s.alt >= 5 && s.alt <= 7 && s.sub >= 128)
+  {
+    if (s.alt == 5)
+      v = o.new_owned_span(serial, &owned);
+    else if (s.alt == 6)
+      v = o.new_owned_span_context(serial, &owned);
+    else
+      v = o.new_owned_baggage(serial, &owned);
+    MVal m  = observe(v);
+    m.owned = owned;
+    return {v, m};
+  }
   switch (s.alt)
   {
     case 0:
@@ -418,7 +529,57 @@ struct Member
   int parent = -1;
   size_t chain = 0;  // ctx_map: number of bindings stacked up behind this context
   std::string how;
+  // objects owned by contexts only (Objects::owned) that this context can reach, also through a
+  // binding that a later one shadows: they must exist as long as this context does
+  std::set<int> reach;
 };
+
+void add_reach(std::set<int> &r, const MVal &v)
+{
+  if (v.owned >= 0)
+    r.insert(v.owned);
+}
+
+// Dereferences a value obtained THROUGH a context: for an object that only contexts own this is a
+// use-after-free (ASan) unless the contexts really share its ownership; what the object says is
+// compared with what was put into it.
+void deref_check(const ctx::ContextValue &v, const MVal &exp, const std::string &who, const std::string &key)
+{
+  if (exp.owned < 0 || t_objects == nullptr)
+    return;
+  const Owned &o = t_objects->owned[static_cast<size_t>(exp.owned)];
+  CK(!o.watch.expired(), who << ": the " << alt_name(exp.alt) << " bound to key " << show_key(key)
+                             << " no longer exists although the context still returns it (a context must share "
+                             << "the ownership of what is bound in it)");
+  trace::SpanContext want = Objects::owned_span_context(o.serial);
+  if (exp.alt == 5)
+  {
+    trace::SpanContext got = nostd::get<nostd::shared_ptr<trace::Span>>(v)->GetContext();
+    CK(got.trace_id() == want.trace_id() && got.span_id() == want.span_id() && got.IsValid(),
+       who << ": the span bound to key " << show_key(key) << " does not report the span context it was created with");
+  }
+  else if (exp.alt == 6)
+  {
+    const trace::SpanContext &got = *nostd::get<nostd::shared_ptr<trace::SpanContext>>(v);
+    CK(got.trace_id() == want.trace_id() && got.span_id() == want.span_id() && got.IsValid(),
+       who << ": the span context bound to key " << show_key(key) << " does not hold the ids it was created with");
+  }
+  else if (exp.alt == 7)
+  {
+    std::string val;
+    bool found = nostd::get<nostd::shared_ptr<bag::Baggage>>(v)->GetValue("serial", val);
+    CK(found && val == std::to_string(o.serial),
+       who << ": the baggage bound to key " << show_key(key) << " does not hold the entry it was created with");
+  }
+}
+
+// every object that some still existing context can reach must exist
+void check_reachable_exist(const Objects &o, const std::set<int> &reach, const std::string &when)
+{
+  for (int id : reach)
+    CK(o.alive(id), when << ": the " << alt_name(o.owned[static_cast<size_t>(id)].alt) << " #own" << id
+                         << " was destroyed although a context that still exists holds a binding to it");
+}
 
 // Identity class of a context that was just obtained.  Asserts only what is documented:
 // contexts that answer differently are never equal; a copy equals its source.
@@ -454,10 +615,12 @@ int classify(const std::vector<Member> &fam, const ctx::Context &c, const Map &m
 void check_lookup(const ctx::Context &c, const Map &m, const std::string &key, nostd::string_view view,
                   const std::string &who)
 {
-  MVal got = observe(c.GetValue(view));
+  ctx::ContextValue gv = c.GetValue(view);
+  MVal got = observe(gv);
   MVal exp = lookup(m, key);
   CK(got == exp, who << " answers " << show_val(got) << " for key " << show_key(key) << ", expected "
                      << show_val(exp));
+  deref_check(gv, exp, who, key);
   bool has = c.HasKey(view);
   if (exp.alt != 0)
     CK(has, who << ": HasKey(" << show_key(key) << ") is false but the key is bound to " << show_val(exp));
@@ -508,8 +671,12 @@ void sweep(const std::vector<Member> &fam, const std::string &after)
     auto sp = trace::GetSpan(fam[i].c);
     CK(sp.get() != nullptr, "after " << after << ": GetSpan(context #" << i << ") returned null");
     if (sv.alt == 5)
+    {
       CK(sp.get() == sv.ptr, "after " << after << ": GetSpan(context #" << i << ") is not the span bound there ("
                                       << show_val(sv) << ")");
+      deref_check(ctx::ContextValue(sp), sv, "after " + after + ": GetSpan(context #" + std::to_string(i) + ")",
+                  trace::kSpanKey);
+    }
     else
       CK(!sp->GetContext().IsValid() && (t_objects == nullptr || !t_objects->ours(sp.get())),
          "after " << after << ": GetSpan(context #" << i << ") returned a real span although "
@@ -559,6 +726,68 @@ template <class F>
 ctx::Context with_container(unsigned kind, const std::vector<std::pair<std::string, ctx::ContextValue>> &kv,
                             F &&f)
 {
+  if (kind >= 4)
+  {
+    // views into exact-size heap blocks (freed right after the call) in a C array, a nostd::span or
+    // a std::initializer_list of pairs
+    using P = std::pair<nostd::string_view, ctx::ContextValue>;
+    std::vector<std::unique_ptr<char[]>> store;
+    std::vector<P> vec;
+    for (auto &e : kv)
+    {
+      store.emplace_back(new char[e.first.size()]);
+      if (!e.first.empty())
+        std::memcpy(store.back().get(), e.first.data(), e.first.size());
+      vec.emplace_back(nostd::string_view(store.back().get(), e.first.size()), e.second);
+    }
+    ctx::Context r;
+    const size_t n = vec.size();
+    if (kind == 5 || n == 0 || n > 3)
+    {
+      nostd::span<P> sp(vec.data(), vec.size());
+      r = f(sp);
+    }
+    else if (kind == 4)
+    {
+      if (n == 1)
+      {
+        P arr[1] = {vec[0]};
+        r        = f(arr);
+      }
+      else if (n == 2)
+      {
+        P arr[2] = {vec[0], vec[1]};
+        r        = f(arr);
+      }
+      else
+      {
+        P arr[3] = {vec[0], vec[1], vec[2]};
+        r        = f(arr);
+      }
+    }
+    else
+    {
+      if (n == 1)
+      {
+        std::initializer_list<P> il = {vec[0]};
+        r                           = f(il);
+      }
+      else if (n == 2)
+      {
+        std::initializer_list<P> il = {vec[0], vec[1]};
+        r                           = f(il);
+      }
+      else
+      {
+        std::initializer_list<P> il = {vec[0], vec[1], vec[2]};
+        r                           = f(il);
+      }
+    }
+    for (size_t i = 0; i < store.size(); ++i)
+      if (!kv[i].first.empty())
+        std::memset(store[i].get(), 0xdd, kv[i].first.size());
+    return r;
+  }
   switch (kind % 4)
   {
     case 0:
@@ -608,7 +837,8 @@ ctx::Context with_container(unsigned kind, const std::vector<std::pair<std::stri
     }
   }
 }
-const char *const kContainerNames[] = {"map", "vec<view>", "unordered_map", "vec<string>"};
+const char *const kContainerNames[] = {"map",   "vec<view>", "unordered_map",   "vec<string>",
+                                       "array", "span",      "initializer_list"};
 
 size_t pick_live(vh::Reader &rd, const std::vector<Member> &fam)
 {
@@ -628,7 +858,8 @@ size_t pick_live(vh::Reader &rd, const std::vector<Member> &fam)
 VH_TARGET(ctx_map, 4,
           "a history is non-trivial when a key is re-bound in a derived context while an ancestor "
           "holding the older binding is still alive and re-queried, or a container of 0 or >=2 "
-          "pairs is used, or a context with live descendants is destroyed; distinct = distinct "
+          "pairs is used, or a context with live descendants is destroyed (values may be objects "
+          "that only contexts own; chains reach thousands of bindings); distinct = distinct "
           "operation text")
 {
   vh::Reader &rd   = c.rd;
@@ -637,6 +868,8 @@ VH_TARGET(ctx_map, 4,
   std::vector<Member> fam;
   int next_ident  = 1;
   uint64_t serial = 0;
+  std::vector<char> owned_state;  // per owned object: 0 new, 1 seen shadowed-only, 2 seen unreachable
+  unsigned huge_chains = 0;
   ObjectsInScope objects_in_scope(&objs);
   {
     Member root;
@@ -644,13 +877,15 @@ VH_TARGET(ctx_map, 4,
     root.ident = 0;
     fam.push_back(root);
   }
-  auto add = [&](ctx::Context nc, Map m, int parent, int copy_of, const std::string &how, size_t chain) {
+  auto add = [&](ctx::Context nc, Map m, int parent, int copy_of, const std::string &how, size_t chain,
+                 std::set<int> reach = {}) {
     Member mb;
     mb.c      = std::move(nc);
     mb.m      = std::move(m);
     mb.parent = parent;
     mb.how    = how;
     mb.chain  = chain;
+    mb.reach  = std::move(reach);
     mb.ident  = classify(fam, mb.c, mb.m, copy_of, &next_ident);
     fam.push_back(std::move(mb));
     c.note("  -> #" + std::to_string(fam.size() - 1) + "\n");
@@ -665,9 +900,11 @@ VH_TARGET(ctx_map, 4,
   unsigned nops = 1 + rd.below(28);
   for (unsigned op = 0; op < nops && (op == 0 || !rd.exhausted()); ++op)
   {
-    size_t kind = rd.weighted({30, 20, 16, 8, 6, 6, 5});
+    size_t kind = rd.weighted({30, 20, 16, 8, 6, 6, 5, 1});
     if (live_count() >= 32 && kind != 2)
       kind = 5;
+    if (kind == 7 && huge_chains >= 2)
+      kind = 6;
     std::string text;
     bool mutated = true;
     switch (kind)
@@ -706,7 +943,11 @@ VH_TARGET(ctx_map, 4,
           c.nontrivial = true;
         }
         m[kp.k[ki]] = val.second;
-        add(res, std::move(m), static_cast<int>(ri), -1, text, fam[ri].chain + 1);
+        std::set<int> reach = fam[ri].reach;
+        add_reach(reach, val.second);
+        if (val.second.owned >= 0)
+          c.tag(std::string("val-owned-by-contexts-only-") + alt_name(val.second.alt));
+        add(std::move(res), std::move(m), static_cast<int>(ri), -1, text, fam[ri].chain + 1, std::move(reach));
         break;
       }
       case 1:  // SetValues
@@ -720,9 +961,15 @@ VH_TARGET(ctx_map, 4,
           ps.push_back(Pair{gen_key(rd), gen_vspec(rd)});
         else
           ps = gen_pairs(rd, &reshaped);
-        unsigned ck = rd.below(4);
+        // (the upper quarter of the byte that selects the container kind selects the later kinds,
+        // so that what the lower values decode to stays as it was)
+        unsigned ck_raw = rd.remaining() ? *rd.cursor() : 0;
+        unsigned ck     = rd.below(4);
+        if (ck_raw >= 192)
+          ck = 4 + ck_raw % 3;
         std::vector<std::pair<std::string, ctx::ContextValue>> kv;
         Map m = kind == 1 ? fam[ri].m : Map{};
+        std::set<int> reach = kind == 1 ? fam[ri].reach : std::set<int>{};
         std::string ptxt;
         bool shadow = false;
         for (auto &p : ps)
@@ -731,6 +978,9 @@ VH_TARGET(ctx_map, 4,
           kv.emplace_back(kp.k[p.key], val.first);
           shadow = shadow || m.count(kp.k[p.key]) != 0;
           m[kp.k[p.key]] = val.second;
+          add_reach(reach, val.second);
+          if (val.second.owned >= 0)
+            c.tag(std::string("val-owned-by-contexts-only-") + alt_name(val.second.alt));
           ptxt += (ptxt.empty() ? "" : ",") + show_key(kp.k[p.key]) + "=" + show_val(val.second);
           c.tag(std::string("key-") + kp.cls[p.key]);
         }
@@ -771,8 +1021,8 @@ VH_TARGET(ctx_map, 4,
         }
         if (!single && ps.size() != 1)
           c.nontrivial = true;
-        add(res, std::move(m), kind == 1 ? static_cast<int>(ri) : -1, -1, text,
-            (kind == 1 ? fam[ri].chain : 0) + ps.size());
+        add(std::move(res), std::move(m), kind == 1 ? static_cast<int>(ri) : -1, -1, text,
+            (kind == 1 ? fam[ri].chain : 0) + ps.size(), std::move(reach));
         break;
       }
       case 2:  // query through a short-lived key view
@@ -823,20 +1073,31 @@ VH_TARGET(ctx_map, 4,
         c.note(text + "\n");
         c.tag("op-Copy");
         CK(d == fam[ri].c && fam[ri].c == d, text << ": the copy does not compare equal to its source");
-        add(d, fam[ri].m, fam[ri].parent, static_cast<int>(ri), text, fam[ri].chain);
+        add(std::move(d), fam[ri].m, fam[ri].parent, static_cast<int>(ri), text, fam[ri].chain, fam[ri].reach);
         break;
       }
       case 6:  // a long chain: many SetValue calls in a row on the newest result, two keys in turn
+      case 7:  // a very long one (hundreds to thousands of bindings behind one context)
       {
+        // The list of bindings is released recursively, one nested destructor call per binding, so
+        // the length is kept far below what the stack of a sanitizer build takes (measured: > 20000
+        // under ASan, > 100000 without).  Whether releasing an arbitrarily long chain must work is
+        // not something the statement speaks about.
+        const bool huge = kind == 7;
         size_t ri  = pick_live(rd, fam);
-        unsigned n = 8 + rd.below(56);
+        unsigned n = huge ? 300 + rd.below(1800) : 8 + rd.below(56);
         static const unsigned pairs[4][2] = {{0, 1}, {kKeyEmpty, 3}, {9, 10}, {11, 12}};
         unsigned ks = rd.below(4);
-        if (fam[ri].chain > 200)
+        // intermediate results that stay in the family: every 16th; very long chains every 512th
+        // or, for an odd length, none (the whole chain then goes away in one release)
+        const unsigned keep = huge ? ((n & 1) ? n + 1 : 512) : 16;
+        if (fam[ri].chain > (huge ? 3000u : 200u))
         {
           mutated = false;
           break;
         }
+        if (huge)
+          ++huge_chains;
         text = "SetValue x" + std::to_string(n) + "(#" + std::to_string(ri) + "," + show_key(kp.k[pairs[ks][0]]) +
                "/" + show_key(kp.k[pairs[ks][1]]) + ")";
         c.note(text + "\n");
@@ -853,16 +1114,19 @@ VH_TARGET(ctx_map, 4,
           ka.scribble();
           m[kp.k[ki]] = val.second;
           // a few intermediate contexts stay in the family
-          if (i % 16 == 15 && i + 1 < n && live_count() < 30)
+          if (i % keep == keep - 1 && i + 1 < n && live_count() < 30)
           {
-            add(cur, m, parent, -1, text + " step " + std::to_string(i), fam[ri].chain + i + 1);
+            add(cur, m, parent, -1, text + " step " + std::to_string(i), fam[ri].chain + i + 1, fam[ri].reach);
             parent = static_cast<int>(fam.size() - 1);
           }
         }
         c.tag("rebind-shadow");
         c.nontrivial = true;
-        add(cur, std::move(m), parent, -1, text, fam[ri].chain + n);
-        c.tag(fam.back().chain > 100 ? "chain>100" : fam.back().chain > 24 ? "chain25-100" : "chain<=24");
+        add(std::move(cur), std::move(m), parent, -1, text, fam[ri].chain + n, fam[ri].reach);
+        c.tag(fam.back().chain > 1000  ? "chain>1000"
+              : fam.back().chain > 100 ? "chain>100"
+              : fam.back().chain > 24  ? "chain25-100"
+                                       : "chain<=24");
         break;
       }
       default:  // destroy one context; everything derived from it must keep answering
@@ -890,7 +1154,41 @@ VH_TARGET(ctx_map, 4,
       }
     }
     if (mutated)
+    {
       sweep(fam, text);
+      // objects that only contexts own: alive while any existing context can reach them, also
+      // through a shadowed binding.  (That they go away with their last context is observed and
+      // counted, not asserted: the statement does not speak about releasing.)
+      std::set<int> reach;
+      for (auto &mb : fam)
+        if (mb.live)
+          reach.insert(mb.reach.begin(), mb.reach.end());
+      check_reachable_exist(objs, reach, "after " + text);
+      owned_state.resize(objs.owned.size(), 0);
+      for (size_t id = 0; id < objs.owned.size(); ++id)
+      {
+        bool reachable = reach.count(static_cast<int>(id)) != 0;
+        if (reachable && owned_state[id] == 0)
+        {
+          bool visible = false;
+          for (auto &mb : fam)
+            if (mb.live && mb.reach.count(static_cast<int>(id)))
+              for (auto &e : mb.m)
+                visible = visible || e.second.owned == static_cast<int>(id);
+          if (!visible)
+          {
+            c.tag("owned-value-reachable-only-through-shadowed-bindings");
+            owned_state[id] = 1;
+          }
+        }
+        if (!reachable && owned_state[id] < 2)
+        {
+          c.tag(objs.alive(static_cast<int>(id)) ? "owned-value-exists-without-any-context"
+                                                 : "owned-value-released-with-its-last-context");
+          owned_state[id] = 2;
+        }
+      }
+    }
   }
   c.tag("family-" + std::string(fam.size() <= 4 ? "<=4" : fam.size() <= 12 ? "5-12" : "13+"));
 }
@@ -967,6 +1265,7 @@ enum Kind : uint8_t
   K_FOREIGN,
   K_SYNC,
   K_YIELD,
+  K_SHARED,  // rt_threads: use a Context OBJECT that the other threads use at the same time
 };
 
 struct Op
@@ -1022,16 +1321,16 @@ Program gen_program(vh::Reader &rd, unsigned max_ops, bool foreign, bool threads
   p.profile  = static_cast<unsigned>(rd.weighted({4, 3, 3}));
   p.end_mode = static_cast<unsigned>(rd.weighted({5, 2, 3}));
   unsigned n = 1 + rd.below(max_ops);
-  unsigned wF = foreign ? 3 : 0, wS = threads ? 8 : 0, wY = threads ? 4 : 0;
+  unsigned wF = foreign ? 3 : 0, wS = threads ? 8 : 0, wY = threads ? 4 : 0, wH = threads ? 10 : 0;
   for (unsigned i = 0; i < n && (i == 0 || !rd.exhausted()); ++i)
   {
     size_t k;
     if (p.profile == 0)
-      k = rd.weighted({6, 20, 12, 8, 6, 4, 10, 8, 10, 6, 4, 2, wF, wS, wY});
+      k = rd.weighted({6, 20, 12, 8, 6, 4, 10, 8, 10, 6, 4, 2, wF, wS, wY, wH});
     else if (p.profile == 1)
-      k = rd.weighted({4, 16, 8, 6, 4, 14, 12, 8, 10, 6, 4, 6, wF, wS, wY});
+      k = rd.weighted({4, 16, 8, 6, 4, 14, 12, 8, 10, 6, 4, 6, wF, wS, wY, wH});
     else
-      k = rd.weighted({3, 10, 5, 5, 3, 28, 12, 8, 8, 5, 3, 8, wF, wS, wY});
+      k = rd.weighted({3, 10, 5, 5, 3, 28, 12, 8, 8, 5, 3, 8, wF, wS, wY, wH});
     Op o;
     o.kind = static_cast<Kind>(k);
     switch (o.kind)
@@ -1042,6 +1341,7 @@ Program gen_program(vh::Reader &rd, unsigned max_ops, bool foreign, bool threads
         break;
       case K_DERIVE_CUR:
       case K_DERIVE_FROM:
+      case K_SHARED:
         o = gen_derive(rd, o.kind);
         break;
       case K_ATTACH_BURST:
@@ -1070,7 +1370,7 @@ std::string show_op(const Op &o)
 {
   static const char *n[] = {"query", "attach", "detach-top", "derive-cur", "derive-from", "attach-burst",
                             "detach-any", "destroy-any", "scope-new", "scope-end", "copy-attach",
-                            "unwind-burst", "foreign", "sync", "yield"};
+                            "unwind-burst", "foreign", "sync", "yield", "shared-object"};
   std::ostringstream s;
   s << n[o.kind];
   switch (o.kind)
@@ -1080,6 +1380,7 @@ std::string show_op(const Op &o)
       break;
     case K_DERIVE_CUR:
     case K_DERIVE_FROM:
+    case K_SHARED:
       s << "(" << o.a << "," << o.b << "," << show_key(pool().k[o.key]) << ",alt" << int(o.v.alt) << "/"
         << int(o.v.sub) << ",m" << o.mode << ")";
       break;
@@ -1112,6 +1413,9 @@ struct Tok
   int fam        = -1;
   bool foreign   = false;
   bool detached  = false;  // an explicit Detach was already issued on it
+  // a Detach of THIS token already matched an Attach (frames were popped for it): the token has no
+  // matching Attach left, presenting it again (Detach / destructor) must change nothing
+  bool consumed  = false;
 };
 
 struct Scp
@@ -1139,6 +1443,7 @@ struct Machine
   std::vector<Tok> toks;
   std::vector<Scp> scps;
   std::vector<Frame> stack;
+  std::vector<char> owned_state;
   std::string log;
   std::vector<std::string> tags;
   bool nontrivial  = false;
@@ -1147,6 +1452,11 @@ struct Machine
   size_t max_depth = 0;
   int tid          = -1;
   Barrier *barrier = nullptr;
+  // rt_threads: Context objects owned by the driver thread that every thread uses directly (not
+  // through a copy) while the others do the same; member shared_first + i is this thread's copy
+  std::vector<ctx::Context> *shared = nullptr;
+  const std::vector<Map> *shared_m  = nullptr;
+  size_t shared_first               = 1;
   // the step being executed, for messages (rendered only when a check fails)
   const char *phase  = "thread start";
   const Op *cur_op   = nullptr;
@@ -1173,11 +1483,13 @@ struct Machine
     fam.push_back(root);
   }
 
-  size_t add_member(ctx::Context nc, Map m, int copy_of, const std::string &how, bool hold = true)
+  size_t add_member(ctx::Context nc, Map m, int copy_of, const std::string &how, bool hold = true,
+                    std::set<int> reach = {})
   {
     Member mb;
     mb.m     = std::move(m);
     mb.how   = how;
+    mb.reach = std::move(reach);
     mb.ident = classify(fam, nc, mb.m, copy_of, &next_ident);
     mb.live  = hold;
     if (hold)
@@ -1245,10 +1557,13 @@ struct Machine
     {
       const std::string &k = kp.k[ki];
       nostd::string_view view(k.data(), k.size());
-      MVal got = observe((ki & 1) ? cur.GetValue(view) : ctx::RuntimeContext::GetValue(view));
+      ctx::ContextValue gv = (ki & 1) ? cur.GetValue(view) : ctx::RuntimeContext::GetValue(view);
+      MVal got = observe(gv);
       MVal exp = lookup(t.m, k);
       CK(got == exp, where() << ": the current context answers " << show_val(got) << " for key "
                            << show_key(k) << ", expected " << show_val(exp));
+      if (exp.owned >= 0)
+        deref_check(gv, exp, where() + ": the current context", k);
     }
     {
       MVal got = observe(ctx::RuntimeContext::GetValue(kOwnerKey));
@@ -1274,6 +1589,8 @@ struct Machine
     {
       CK(sp.get() == sv.ptr, where() << ": Tracer::GetCurrentSpan() is not the span bound in the current context");
       CK(sp2.get() == sv.ptr, where() << ": trace::GetSpan(GetCurrent()) is not the span bound in the current context");
+      if (sv.owned >= 0)
+        deref_check(ctx::ContextValue(sp), sv, where() + ": Tracer::GetCurrentSpan()", trace::kSpanKey);
     }
     else
     {
@@ -1285,6 +1602,48 @@ struct Machine
     }
   }
 
+  // Objects that only contexts own must exist as long as a context that can reach them does: the
+  // contexts the harness holds, every frame of the stack, and the context inside every token /
+  // scope that still exists (a token keeps its context).
+  void check_owned()
+  {
+    if (objs.owned.empty())
+      return;
+    std::vector<char> reach(objs.owned.size(), 0);
+    auto take = [&](int fi) {
+      if (fi >= 0)
+        for (int id : fam[static_cast<size_t>(fi)].reach)
+          reach[static_cast<size_t>(id)] = 1;
+    };
+    for (size_t i = 0; i < fam.size(); ++i)
+      if (fam[i].live)
+        take(static_cast<int>(i));
+    for (auto &f : stack)
+      take(f.fam);
+    for (auto &tk : toks)
+      if (tk.t.get() != nullptr)
+        take(tk.fam);
+    for (auto &sc : scps)
+      if (sc.s)
+        take(sc.fam);
+    owned_state.resize(objs.owned.size(), 0);
+    for (size_t id = 0; id < objs.owned.size(); ++id)
+    {
+      if (reach[id])
+        CK(objs.alive(static_cast<int>(id)),
+           "after " << step << ": the " << alt_name(objs.owned[id].alt) << " #own" << id
+                    << " was destroyed although a context that still exists (held by the program, a stack frame "
+                    << "or a token) holds a binding to it");
+      else if (owned_state[id] == 0)
+      {
+        // observed, not asserted
+        tag(objs.alive(static_cast<int>(id)) ? "owned-value-exists-without-any-context"
+                                             : "owned-value-released-with-its-last-context");
+        owned_state[id] = 1;
+      }
+    }
+  }
+
   void push_frame(size_t fi, int creator)
   {
     stack.push_back(Frame{static_cast<int>(fi), creator});
@@ -1292,10 +1651,12 @@ struct Machine
       max_depth = stack.size();
   }
 
-  void do_attach(size_t fi, bool via_copy)
+  void do_attach(size_t fi, bool via_copy, const ctx::Context *direct = nullptr)
   {
     Tok tk;
-    if (via_copy)
+    if (direct != nullptr)
+      tk.t = ctx::RuntimeContext::Attach(*direct);  // an object other threads use at the same time
+    else if (via_copy)
     {
       // the caller's Context object dies right after the call: the stack must hold its own copy
       std::unique_ptr<ctx::Context> tmp(new ctx::Context(fam[fi].c));
@@ -1343,36 +1704,113 @@ struct Machine
     return v;
   }
 
+  size_t frames_with(int ident) const
+  {
+    size_t n = 0;
+    for (auto &f : stack)
+      n += fam[static_cast<size_t>(f.fam)].ident == ident ? 1 : 0;
+    return n;
+  }
+
+  // What presenting a token (explicit Detach or its destructor) must do.  Decided per token, as the
+  // statement puts it ("restores the context that was current before the MATCHING Attach ... a
+  // foreign token changes nothing"): a token whose Detach already succeeded has no matching Attach
+  // left.  A token that never matched anything is matched by its context, most recent frame first
+  // (the quantifier's "a context attached more than once is matched most-recent-first").
+  Expect model_present(Tok &tk)
+  {
+    if (tk.consumed)
+    {
+      if (frames_with(tk.ident) != 0)
+      {
+        tag("consumed-token-again-equal-frame-must-stay");
+        nontrivial = true;
+      }
+      // the empty context's token on an empty stack: the return value is not specified
+      return stack.empty() && tk.ident == fam[0].ident ? E_ANY : E_FALSE;
+    }
+    Expect e = model_detach(tk.ident);
+    if (e == E_TRUE)
+      tk.consumed = true;
+    return e;
+  }
+
+  // finding C10-detach-twice, while it is open: a token whose Detach already succeeded is not
+  // presented again as long as a frame holding an equal context is on the stack (the step is
+  // skipped; the token is released later, when nothing can match it)
+  bool must_defer(const Tok &tk) const
+  {
+    return tk.consumed && avoid_detach_twice() && frames_with(tk.ident) != 0;
+  }
+
+  // a clearer message than the general comparison that follows every step
+  void check_used_up_token_changed_nothing(const char *what)
+  {
+    const Member &t = top();
+    if (t.live)
+      CK(ctx::RuntimeContext::GetCurrent() == t.c,
+         step << ": " << what << " a token whose Detach had already succeeded changed the current context: "
+              << "the token has no matching Attach left, but a frame that holds an equal context (attached by "
+              << "another Attach) was popped (model depth " << stack.size() << ")");
+  }
+
   void explicit_detach(size_t ti)
   {
     Tok &tk = toks[ti];
+    if (must_defer(tk))
+    {
+      count_excl(kDetachTwice);
+      tag("reshaped-C10-detach-twice");
+      return;
+    }
     size_t depth_before = stack.size();
-    bool on_stack = false;
-    for (auto &f : stack)
-      on_stack = on_stack || fam[static_cast<size_t>(f.fam)].ident == tk.ident;
-    Expect e = model_detach(tk.ident);
+    bool on_stack       = frames_with(tk.ident) != 0;
+    bool was_consumed   = tk.consumed;
+    Expect e = model_present(tk);
     bool r   = ctx::RuntimeContext::Detach(*tk.t);
     if (e != E_ANY)
-      CK(r == (e == E_TRUE), step << ": Detach returned " << r << " but the token's context is "
-                                  << (e == E_TRUE ? "" : "not ") << "on this thread's stack (depth "
-                                  << depth_before << ")");
-    if (!on_stack)
+      CK(r == (e == E_TRUE), step << ": Detach returned " << r << " but "
+                                  << (was_consumed ? "an earlier Detach of this very token already succeeded"
+                                      : e == E_TRUE ? "the token's context is on this thread's stack"
+                                                    : "the token's context is not on this thread's stack")
+                                  << " (depth " << depth_before << ")");
+    if (was_consumed && on_stack)
+      check_used_up_token_changed_nothing("detaching");
+    if (was_consumed)
+      tag(on_stack ? "detach-again-equal-frame-untouched" : "detach-again-noop");
+    else if (!on_stack)
     {
-      tag(tk.foreign ? "detach-foreign-thread-token" : tk.detached ? "detach-again-noop" : "detach-stale-noop");
+      tag(tk.foreign ? "detach-foreign-thread-token" : "detach-stale-noop");
       if (e == E_ANY)
         tag("detach-empty-context-token-on-empty-stack");
     }
-    else if (tk.detached)
-      tag("detach-again-matches-other-frame");
     tk.detached = true;
+    if (e == E_ANY && !was_consumed)
+    {
+      // whether that Detach counts as a match is as unspecified as its return value: the token is
+      // released right away (the stack is empty, nothing can change) so that no later step depends
+      // on it
+      tk.t.reset();
+    }
   }
 
   void destroy_token(size_t ti)
   {
     Tok &tk = toks[ti];
-    model_detach(tk.ident);
+    if (must_defer(tk))
+    {
+      count_excl(kDetachTwice);
+      tag("reshaped-C10-detach-twice");
+      return;
+    }
+    bool was_consumed = tk.consumed;
+    bool equal_frame  = frames_with(tk.ident) != 0;
+    model_present(tk);
     tk.t.reset();
-    tag(tk.detached ? "token-destroyed-after-detach" : "token-destroyed-attached");
+    if (was_consumed && equal_frame)
+      check_used_up_token_changed_nothing("destroying");
+    tag(was_consumed ? "token-destroyed-after-successful-detach"
+        : tk.detached ? "token-destroyed-after-detach" : "token-destroyed-attached");
   }
 
   void end_scope(size_t si)
@@ -1397,7 +1835,7 @@ struct Machine
         return;
       }
     }
-    else if (toks[static_cast<size_t>(f.creator)].t.get() != nullptr)
+    else if (toks[static_cast<size_t>(f.creator)].t.get() != nullptr && !toks[static_cast<size_t>(f.creator)].consumed)
     {
       if (prefer_explicit)
         explicit_detach(static_cast<size_t>(f.creator));
@@ -1405,10 +1843,11 @@ struct Machine
         destroy_token(static_cast<size_t>(f.creator));
       return;
     }
-    // its creator is gone (an equal context was matched instead): use any live token of that identity
+    // its creator is gone or used up (an equal context was matched instead): use any live token of
+    // that identity that did not match anything yet
     int ident = fam[static_cast<size_t>(f.fam)].ident;
     for (size_t i = toks.size(); i-- > 0;)
-      if (toks[i].t.get() != nullptr && toks[i].ident == ident)
+      if (toks[i].t.get() != nullptr && toks[i].ident == ident && !toks[i].consumed)
       {
         if (prefer_explicit)
           explicit_detach(i);
@@ -1428,9 +1867,21 @@ struct Machine
       auto lt = live_tokens();
       if (lt.empty())
         return;
-      Tok &tk        = toks[lt[o.b % lt.size()]];
+      size_t pick = lt[o.b % lt.size()];
+      // A token of the empty context "matches" the helper thread's empty stack: return value and
+      // whether that uses the token up are unspecified.  Such a token is only lent out when no
+      // frame of this thread could match it afterwards, and it is released right after the visit.
+      auto undecidable = [&](size_t i) {
+        return toks[i].ident == fam[0].ident && !toks[i].consumed && frames_with(toks[i].ident) != 0;
+      };
+      for (size_t k = 0; k < lt.size() && undecidable(pick); ++k)
+        pick = lt[(o.b + 1 + k) % lt.size()];
+      if (undecidable(pick))
+        return;
+      Tok &tk        = toks[pick];
       ctx::Token *tp = tk.t.get();
       bool is_empty_ctx = tk.ident == fam[0].ident;
+      bool release_after = is_empty_ctx && !tk.consumed;
       std::thread th;
       bool started = start_thread(th, [&err, tp, is_empty_ctx] {
         try
@@ -1455,6 +1906,11 @@ struct Machine
       }
       th.join();
       tag("foreign-detach-of-our-token");
+      if (release_after && err.empty())
+      {
+        tk.t.reset();  // no frame here holds the empty context: nothing changes under any reading
+        tag("foreign-detach-of-our-empty-context-token");
+      }
     }
     else
     {
@@ -1498,6 +1954,7 @@ struct Machine
         tk.ident   = next_ident++;  // differs in content ("foreign" key) from everything attachable here
         tk.foreign = true;
         tk.detached = variant == 1;
+        tk.consumed = variant == 1;
         toks.push_back(std::move(tk));
       }
       tag(variant == 0 ? "foreign-token-still-attached-there" : "foreign-token-detached-there");
@@ -1566,11 +2023,13 @@ struct Machine
         KeyArg ka(kp.k[o.key], o.mode);
         ctx::Context res;
         Map m;
+        std::set<int> reach;
         std::string how;
         if (o.kind == K_DERIVE_CUR)
         {
           res = ctx::RuntimeContext::SetValue(ka.view, val.first);
           m   = top().m;
+          reach = top().reach;
           how = "current+" + show_key(kp.k[o.key]) + "=" + show_val(val.second);
         }
         else
@@ -1584,24 +2043,29 @@ struct Machine
           else
             res = fam[fi].c.SetValue(ka.view, val.first);
           m   = fam[fi].m;
+          reach = fam[fi].reach;
           how = "#" + std::to_string(fi) + "+" + show_key(kp.k[o.key]) + "=" + show_val(val.second);
           // sometimes keep an extra copy as its own family member (same identity as its source)
           if (o.b % 7 == 3 && fam.size() + 1 < kMaxFamily)
           {
             ctx::Context cp = fam[fi].c;
-            add_member(cp, fam[fi].m, static_cast<int>(fi), "copy of #" + std::to_string(fi));
+            add_member(cp, fam[fi].m, static_cast<int>(fi), "copy of #" + std::to_string(fi), true, fam[fi].reach);
             tag("family-copy");
           }
         }
         ka.scribble();
+        val.first      = nostd::monostate{};  // an object made for this binding is now owned by contexts only
         m[kp.k[o.key]] = val.second;
+        add_reach(reach, val.second);
+        if (val.second.owned >= 0)
+          tag(std::string("val-owned-by-contexts-only-") + alt_name(val.second.alt));
         if (tid >= 0 && o.kind == K_DERIVE_FROM && m.find(kOwnerKey) == m.end())
         {
           // rt_threads: everything a thread derives from the empty context carries its marker
           res          = res.SetValue(kOwnerKey, static_cast<int64_t>(tid));
           m[kOwnerKey] = observe(ctx::ContextValue(static_cast<int64_t>(tid)));
         }
-        size_t ni = add_member(res, std::move(m), -1, how);
+        size_t ni = add_member(std::move(res), std::move(m), -1, how, true, std::move(reach));
         verify_member(ni);
         tag(o.kind == K_DERIVE_CUR ? "derive-from-current" : "derive");
         break;
@@ -1626,19 +2090,32 @@ struct Machine
       {
         if (stack.size() >= kMaxDepth || fam.size() >= kMaxFamily)
           break;
-        auto &span = objs.spans[o.a % objs.spans.size()];
+        // (o.b & 4): a span made for this scope that nothing but the scope's context will own
+        int owned_id = -1;
+        nostd::shared_ptr<trace::Span> span =
+            (o.b & 4) ? objs.new_owned_span(++serial, &owned_id) : objs.spans[o.a % objs.spans.size()];
         Scp s;
         if (o.b & 1)
           s.s.reset(new trace::Scope(trace::Tracer::WithActiveSpan(span)));
         else
           s.s.reset(new trace::Scope(span));
         Map m              = top().m;
+        std::set<int> reach = top().reach;
         m[trace::kSpanKey] = observe(ctx::ContextValue(span));
+        m[trace::kSpanKey].owned = owned_id;
+        span = nostd::shared_ptr<trace::Span>();
+        if (owned_id >= 0)
+        {
+          reach.insert(owned_id);
+          tag("scope-for-a-span-only-its-context-owns");
+        }
         // the context the Scope attached is only reachable through GetCurrent(); half of the time
         // the harness does not keep it, so that the runtime stack is its only owner
         bool hold = (o.b & 2) != 0;
         size_t fi = add_member(ctx::RuntimeContext::GetCurrent(), std::move(m), -1,
-                               "Scope(span" + std::to_string(o.a % objs.spans.size()) + ")", hold);
+                               owned_id >= 0 ? "Scope(span own" + std::to_string(owned_id) + ")"
+                                             : "Scope(span" + std::to_string(o.a % objs.spans.size()) + ")",
+                               hold, std::move(reach));
         s.ident = fam[fi].ident;
         s.fam   = static_cast<int>(fi);
         scps.push_back(std::move(s));
@@ -1660,6 +2137,78 @@ struct Machine
       case K_FOREIGN:
         foreign(o);
         break;
+      case K_SHARED:
+      {
+        if (shared == nullptr || shared->empty())
+          break;
+        size_t si        = o.a % shared->size();
+        ctx::Context &sc = (*shared)[si];  // the very object the other threads are using right now
+        const Map &sm    = (*shared_m)[si];
+        size_t member    = shared_first + si;
+        std::string who  = "the shared context object " + std::to_string(si) + " (" + show_op(o) + ")";
+        unsigned variant = o.b % 5;
+        if (variant == 0)
+        {
+          const std::string &k = kp.k[o.key];
+          KeyArg ka(k, o.mode);
+          check_lookup(sc, sm, k, ka.view, who);
+          MVal got = observe(ctx::RuntimeContext::GetValue(ka.view, &sc));
+          ka.scribble();
+          CK(got == lookup(sm, k), who << ": RuntimeContext::GetValue(key, &shared) gave " << show_val(got)
+                                       << " for key " << show_key(k) << ", expected " << show_val(lookup(sm, k)));
+          check_lookup(sc, sm, kp.k[kKeyId], nostd::string_view(kp.k[kKeyId].data(), kp.k[kKeyId].size()), who);
+          check_lookup(sc, sm, kOwnerKey, kOwnerKey, who);
+          CK(sc == fam[member].c && fam[member].c == sc,
+             who << " no longer compares equal to the copy this thread took of it at the start");
+          tag("shared-object-lookup");
+        }
+        else if (variant == 4)
+        {
+          if (stack.size() >= kMaxDepth || toks.size() >= kMaxTokens)
+            break;
+          do_attach(member, false, &sc);
+          tag("shared-object-attach");
+        }
+        else
+        {
+          if (fam.size() >= kMaxFamily)
+            break;
+          auto val = make_value(o.v, ++serial, objs);
+          Map m    = sm;
+          ctx::Context res;
+          if (variant == 3)
+          {
+            // SetValues with two pairs: the drawn key and a second one
+            const std::string &k2 = kp.k[o.key == 1 ? 0 : 1];
+            std::map<std::string, ctx::ContextValue> cont;
+            cont[kp.k[o.key]] = val.first;
+            cont[k2]          = static_cast<int64_t>(tid);
+            res               = sc.SetValues(cont);
+            m[k2]             = observe(ctx::ContextValue(static_cast<int64_t>(tid)));
+            tag("shared-object-setvalues");
+          }
+          else
+          {
+            KeyArg ka(kp.k[o.key], o.mode);
+            res = variant == 1 ? sc.SetValue(ka.view, val.first)
+                               : ctx::RuntimeContext::SetValue(ka.view, val.first, &sc);
+            ka.scribble();
+            tag("shared-object-setvalue");
+          }
+          val.first      = nostd::monostate{};
+          m[kp.k[o.key]] = val.second;
+          std::set<int> reach;
+          add_reach(reach, val.second);
+          size_t ni = add_member(std::move(res), std::move(m), -1,
+                                 "shared" + std::to_string(si) + "+" + show_key(kp.k[o.key]) + "=" +
+                                     show_val(val.second),
+                                 true, std::move(reach));
+          verify_member(ni);
+          // the shared object itself is untouched
+          check_lookup(sc, sm, kp.k[o.key], nostd::string_view(kp.k[o.key].data(), kp.k[o.key].size()), who);
+        }
+        break;
+      }
       case K_SYNC:
         if (barrier)
           barrier->arrive_and_wait();
@@ -1682,6 +2231,11 @@ struct Machine
       auto ls = live_scopes();
       if (lt.empty() && ls.empty())
         break;
+      // (finding C10-detach-twice open: used-up tokens wait until nothing on the stack equals them)
+      for (size_t i = lt.size(); i-- > 0;)
+        if (must_defer(toks[lt[i]]))
+          lt.erase(lt.begin() + static_cast<std::ptrdiff_t>(i));
+      CK(!lt.empty() || !ls.empty(), "harness model error: only deferred tokens left on a non-empty stack");
       if (end_mode == 0)
       {
         // stack order: whatever created the top frame goes first; leftovers newest first
@@ -1718,9 +2272,12 @@ struct Machine
           end_scope(ls[i - lt.size()]);
       }
       check_current();
+      if (guard % 4 == 0)
+        check_owned();
     }
     CK(stack.empty(), "harness model error: frames left after every token was released");
     check_current();
+    check_owned();
     CK(ctx::RuntimeContext::GetCurrent() == ctx::Context(),
        "after releasing every token and scope the current context is not the empty context");
   }
@@ -1737,6 +2294,7 @@ struct Machine
       cur_index = i++;
       exec(o);
       check_current();
+      check_owned();
     }
     if (max_depth > 8)
       nontrivial = true;
@@ -1753,11 +2311,14 @@ void reset_this_thread()
 {
   for (int round = 0; round < 160; ++round)
   {
-    // a token for the current context matches every frame that holds it: one pushed here, then
-    // the frame(s) below
-    auto t = ctx::RuntimeContext::Attach(ctx::RuntimeContext::GetCurrent());
-    ctx::RuntimeContext::Detach(*t);
-    ctx::RuntimeContext::Detach(*t);
+    // A token that never matched anything is matched by its context.  `b` is made such a token for
+    // the current context: its own frame goes away when `z` below it is detached out of order, so
+    // that its first (and only successful) Detach takes the frame an earlier case left behind.
+    ctx::Context cur = ctx::RuntimeContext::GetCurrent();
+    auto z = ctx::RuntimeContext::Attach(ctx::Context("vh.reset", static_cast<int64_t>(round)));
+    auto b = ctx::RuntimeContext::Attach(cur);
+    ctx::RuntimeContext::Detach(*z);
+    ctx::RuntimeContext::Detach(*b);
   }
   CK(ctx::RuntimeContext::GetCurrent() == ctx::Context(),
      "the calling thread's runtime context could not be emptied before the case");
@@ -1783,7 +2344,9 @@ std::string show_program(const Program &p)
 // ================================================================================================
 VH_TARGET(rt_stack, 6,
           "a program is non-trivial when a token is detached out of order (frames above it are "
-          "unwound) or the stack gets deeper than 8 frames; distinct = distinct program text")
+          "unwound), or a token whose Detach already succeeded is presented again while an equal "
+          "context is on the stack, or the stack gets deeper than 8 frames; distinct = distinct "
+          "program text")
 {
   vh::Reader &rd = c.rd;
   bool own_thread = !rd.chance(12);
@@ -1824,8 +2387,9 @@ VH_TARGET(rt_stack, 6,
 // ================================================================================================
 VH_TARGET(rt_threads, 8,
           "a run is non-trivial when at least two threads each attach something and at least one "
-          "of them detaches out of order or goes deeper than 8 frames; distinct = distinct program "
-          "text (the schedule is not controlled)")
+          "of them detaches out of order or goes deeper than 8 frames (threads also use shared "
+          "Context objects directly, at the same time); distinct = distinct program text (the "
+          "schedule is not controlled)")
 {
   vh::Reader &rd = c.rd;
   unsigned nthr  = 2 + rd.below(2);
@@ -1869,6 +2433,8 @@ VH_TARGET(rt_threads, 8,
         machines[t].reset(new Machine(static_cast<int>(t)));
         Machine &m = *machines[t];
         m.barrier  = &barrier;
+        m.shared   = &shared;
+        m.shared_m = &shared_m;
         CK(ctx::RuntimeContext::GetCurrent() == ctx::Context(),
            "thread " << t << " starts with a non-empty runtime context (the driver thread's marker?)");
         for (size_t i = 0; i < shared.size(); ++i)
@@ -1931,4 +2497,30 @@ VH_TARGET(rt_threads, 8,
   VH_CHECK(c, ctx::RuntimeContext::Detach(*my_token), "Detach of the driver thread's marker returned false");
   VH_CHECK(c, ctx::RuntimeContext::GetCurrent() == ctx::Context(),
            "the driver thread's context is not empty after detaching its marker");
+}
+
+// ================================================================================================
+// Fixed witness of the open known finding C10-detach-twice (independent of the generators): the same
+// context attached twice; the second token is detached explicitly and then destroyed.  Its destructor
+// presents the used-up token again, which must change nothing - the first frame must stay current.
+VH_TARGET(detach_twice_witness, 1, "fixed witness case of known finding C10-detach-twice (not part of the search)")
+{
+  namespace ctx = opentelemetry::context;
+  c.nontrivial  = true;
+  ctx::Context a = ctx::Context().SetValue("witness", static_cast<int64_t>(7));
+  auto before    = ctx::RuntimeContext::GetCurrent();
+  {
+    auto t0 = ctx::RuntimeContext::Attach(a);
+    {
+      auto t1 = ctx::RuntimeContext::Attach(a);
+      bool ok = ctx::RuntimeContext::Detach(*t1);
+      c.note("Attach(A) t0; Attach(A) t1; Detach(*t1) -> " + std::string(ok ? "true" : "false") + "; ~t1\n");
+    }  // ~t1: the token was detached already
+    bool still = ctx::RuntimeContext::GetCurrent().HasKey("witness");
+    bool ok0   = ctx::RuntimeContext::Detach(*t0);
+    VH_CHECK(c, still, "detach twice: destroying a token that had been detached already popped the frame of another "
+                       "Attach of an equal context (current no longer holds the attached context)");
+    VH_CHECK(c, ok0, "detach twice: the first token could no longer be detached (its frame was taken by the used-up token)");
+  }
+  (void)before;
 }
